@@ -3,6 +3,8 @@ package main
 // Calls: builtins, contracts (modular), inlining, externals, defers/recover; loops.
 
 import (
+	"sort"
+	"os"
 	"fmt"
 	"go/token"
 	"go/types"
@@ -47,6 +49,10 @@ func (f *Frame) call(v ssa.Value, c *ssa.CallCommon, st *state) {
 		callee = cv.Fn.(*ssa.Function)
 	default:
 		fv := f.val(c.Value)
+		if alts, ok := f.cloAlts[c.Value]; ok {
+			f.dispatchClosures(v, c, alts, args, st, fv)
+			return
+		}
 		if fv.Clo != nil {
 			callee = fv.Clo.Fn.(*ssa.Function)
 		} else if fv.Fn != nil {
@@ -220,6 +226,8 @@ func (f *Frame) callByContract(v ssa.Value, in ssa.Instruction, sig *types.Signa
 	env.heap = st.heap
 	env.oldHeap = st.heap
 	env.frame = f
+	u.ncalls++
+	env.callID = fmt.Sprint(u.ncalls)
 	// let bindings
 	f.bindLets(env, c)
 	// preconditions
@@ -227,6 +235,26 @@ func (f *Frame) callByContract(v ssa.Value, in ssa.Instruction, sig *types.Signa
 		t, err := env.evalBool(cl.Text)
 		if err != nil {
 			u.W.fail("%s:%d: requires of %s: %v", cl.File, cl.Line, c.Key, err)
+			continue
+		}
+		if os.Getenv("GOVC_SPLIT") != "" {
+			flat := []string{t}
+			for changed := true; changed; {
+				changed = false
+				var nf []string
+				for _, p := range flat {
+					if ps := topConjuncts(p); len(ps) > 1 {
+						nf = append(nf, ps...)
+						changed = true
+					} else {
+						nf = append(nf, p)
+					}
+				}
+				flat = nf
+			}
+			for _, p := range flat {
+				u.oblige("pre@callsite", f.fname, st.cur, p, posStr(u.W.Fset, in.Pos()), "requires of "+what+": "+clip(p, 300))
+			}
 			continue
 		}
 		o := u.oblige("pre@callsite", f.fname, st.cur, t, posStr(u.W.Fset, in.Pos()), "requires of "+what+": "+cl.Text)
@@ -281,6 +309,28 @@ func (f *Frame) callByContract(v ssa.Value, in ssa.Instruction, sig *types.Signa
 					// only the slice's own window changes
 					u.emit(fmt.Sprintf("(assert (forall ((i Int)) (! (=> (or (< i (sl.off %s)) (>= i (+ (sl.off %s) (sl.len %s)))) (= (select %s i) (select (select %s %s) i))) :pattern ((select %s i)))))", av.T, av.T, av.T, nd, ea, base, nd))
 					u.hset(st.heap, earr, sto(ea, base, nd))
+					u.bumpHV(st.heap, false)
+				case strings.HasPrefix(item, `\mapof(`):
+					env.heap = pre
+					av, err := env.eval(strings.TrimSuffix(strings.TrimPrefix(item, `\mapof(`), ")"))
+					if err != nil {
+						u.W.fail("%s:%d: assigns of %s: %v", cl.File, cl.Line, c.Key, err)
+						continue
+					}
+					mt, ok := av.Typ.Underlying().(*types.Map)
+					if !ok {
+						u.W.fail("%s:%d: \\mapof of non-map", cl.File, cl.Line)
+						continue
+					}
+					dom, val := u.mapArrs(mt)
+					f.frameExtra = "(= " + av.T + " 0)"
+					f.frameCheckRef(st, in, dom, av.T, "callee "+what+" updates the entries of a map")
+					f.frameExtra = ""
+					d, vv := u.hget(st.heap, dom), u.hget(st.heap, val)
+					nd := u.fresh("mapdom", "(Array "+u.D.SortOf(mt.Key())+" Bool)")
+					nv := u.fresh("mapval", "(Array "+u.D.SortOf(mt.Key())+" "+u.D.SortOf(mt.Elem())+")")
+					u.hset(st.heap, dom, sto(d, av.T, nd))
+					u.hset(st.heap, val, sto(vv, av.T, nv))
 					u.bumpHV(st.heap, false)
 				case strings.HasPrefix(item, `\after(`):
 					env.heap = pre
@@ -380,7 +430,11 @@ func (f *Frame) inline(v ssa.Value, callee *ssa.Function, args []Val, st *state,
 		}
 	}
 	// free variables of closures
-	if mc := f.closureOf(v); mc != nil {
+	mc := f.closureOverride
+	if mc == nil {
+		mc = f.closureOf(v)
+	}
+	if mc != nil {
 		for i, fv := range callee.FreeVars {
 			g.vals[fv] = f.val(mc.Bindings[i])
 		}
@@ -389,6 +443,75 @@ func (f *Frame) inline(v ssa.Value, callee *ssa.Function, args []Val, st *state,
 	g.run(st.heap, st.cur)
 	f.finishInline(v, g, st)
 	f.recordTrace(tr, st, args, f.inlineResults)
+}
+
+// cloAlt: one way a function-typed phi can get its value (a closure made on that edge, or nil).
+type cloAlt struct {
+	cond string
+	val  Val
+}
+
+// dispatchClosures: a call through a phi of closures (the registerFunc pattern in Filter) is a
+// case split over the edges the value can have come from; each closure body is executed under
+// its edge condition and the outcomes are merged.
+func (f *Frame) dispatchClosures(v ssa.Value, c *ssa.CallCommon, alts []cloAlt, args []Val, st *state, fv Val) {
+	u := f.u
+	in := v.(ssa.Instruction)
+	f.check(st, "nilcall", "(not (= "+fv.T+" 0))", in, "call of nil function value")
+	var conds []string
+	var heaps []*Heap
+	var results [][]Val
+	for _, a := range alts {
+		if a.val.Clo == nil {
+			continue
+		}
+		callee := a.val.Clo.Fn.(*ssa.Function)
+		sti := &state{cur: u.define("clo.sel", "Bool", and(st.cur, a.cond)), heap: st.heap.clone()}
+		if callee.Blocks == nil || !inlinable(callee) || f.depth >= maxInlineDepth {
+			u.inexact = true
+			u.note("closure " + funcDisplayName(callee) + " not inlinable: result and heap havoced")
+			f.havocCall(v, c.Signature(), sti, true, nil, args)
+			f.mayPanic(sti, in, funcDisplayName(callee))
+			f.inlineResults = nil
+			if x, ok := f.vals[v]; ok {
+				if x.Tup != nil {
+					f.inlineResults = x.Tup
+				} else if x.T != "" {
+					f.inlineResults = []Val{x}
+				}
+			}
+		} else {
+			f.closureOverride = a.val.Clo
+			f.inline(v, callee, args, sti, nil)
+			f.closureOverride = nil
+		}
+		conds = append(conds, u.define("clo.after", "Bool", sti.cur))
+		heaps = append(heaps, sti.heap)
+		results = append(results, append([]Val{}, f.inlineResults...))
+	}
+	if len(conds) == 0 {
+		st.cur = "false"
+		return
+	}
+	st.cur = u.define("after.dispatch", "Bool", or(conds...))
+	if len(heaps) == 1 {
+		st.heap = heaps[0]
+	} else {
+		st.heap = u.newHeap(&Link{kind: "merge", preds: heaps, conds: conds})
+	}
+	n := len(results[0])
+	var rs []Val
+	for j := 0; j < n; j++ {
+		term := results[len(results)-1][j].T
+		typ := results[0][j].Typ
+		for i := len(results) - 2; i >= 0; i-- {
+			if len(results[i]) > j && results[i][j].T != term {
+				term = ite(conds[i], results[i][j].T, term)
+			}
+		}
+		rs = append(rs, Val{T: u.define("disp", u.D.SortOf(typ), term), Typ: typ})
+	}
+	f.bindResults(v, rs)
 }
 
 func (f *Frame) closureOf(v any) *ssa.MakeClosure {
@@ -473,8 +596,7 @@ func (f *Frame) builtin(v ssa.Value, b *ssa.Builtin, c *ssa.CallCommon, st *stat
 			fn := u.D.Fun("map.len", []string{u.D.SortOf(types.NewMap(t.Key(), types.Typ[types.Bool]))}, "Int")
 			_ = fn
 			dom, _ := u.mapArrs(t)
-			card := u.D.Fun("card:"+shortType(t.Key()), []string{"(Array " + u.D.SortOf(t.Key()) + " Bool)"}, "Int")
-			r := u.define("maplen", "Int", ite("(= "+a.T+" 0)", "0", app(card, sel(u.hget(st.heap, dom), a.T))))
+			r := u.define("maplen", "Int", ite("(= "+a.T+" 0)", "0", u.cardOf(sel(u.hget(st.heap, dom), a.T), t.Key())))
 			u.emit("(assert (>= " + r + " 0))")
 			f.set(v, r)
 		case *types.Array:
@@ -539,6 +661,12 @@ func (f *Frame) builtin(v ssa.Value, b *ssa.Builtin, c *ssa.CallCommon, st *stat
 func (f *Frame) appendOp(v ssa.Value, c *ssa.CallCommon, st *state) {
 	u := f.u
 	s := f.val(c.Args[0])
+	{
+		// name the operand by a constant: its term may be an ite (map lookup), which cannot occur in patterns
+		sv := u.fresh("app.src", "Slice")
+		u.emit("(assert (= " + sv + " " + s.T + "))")
+		s.T = sv
+	}
 	t := v.Type().Underlying().(*types.Slice)
 	arr, _ := u.elemArr(t.Elem())
 	es := u.D.SortOf(t.Elem())
@@ -571,7 +699,12 @@ func (f *Frame) appendOp(v ssa.Value, c *ssa.CallCommon, st *state) {
 	na := u.fresh("app.data", "(Array Int "+es+")")
 	// contents of the result's backing array: old prefix, then the new elements
 	u.emit(fmt.Sprintf("(assert (forall ((j Int)) (! (=> (and (<= 0 j) (< j %s)) (= (select %s (sl.at %s j)) (select (select %s %s) (sl.at %s j)))) :pattern ((select %s (sl.at %s j))) :pattern ((sl.at %s j)))))", oldLen, na, res, a, oldBase, s.T, na, res, s.T))
-	u.emit(fmt.Sprintf("(assert (forall ((j Int)) (! (=> (and (<= 0 j) (< j %s)) (= (select %s (sl.at %s (+ %s j))) %s)) :pattern ((select %s (sl.at %s (+ %s j)))))))", addLen, na, res, oldLen, addAt("j"), na, res, oldLen))
+	// (stated over the result index, so that a read of the result instantiates it; and over the
+	// argument index, so that an element of the argument is found in the result)
+	u.emit(fmt.Sprintf("(assert (forall ((i Int)) (! (=> (and (<= %s i) (< i (+ %s %s))) (= (select %s (sl.at %s i)) %s)) :pattern ((select %s (sl.at %s i))))))", oldLen, oldLen, addLen, na, res, addAt("(- i "+oldLen+")"), na, res))
+	if _, isSlice := c.Args[1].Type().Underlying().(*types.Slice); isSlice {
+		u.emit(fmt.Sprintf("(assert (forall ((j Int)) (! (=> (and (<= 0 j) (< j %s)) (= (select %s (sl.at %s (+ %s j))) %s)) :pattern ((sl.at %s j)))))", addLen, na, res, oldLen, addAt("j"), y.T))
+	}
 	// in place: everything outside the written range keeps its value
 	u.emit(fmt.Sprintf("(assert (=> %s (forall ((i Int)) (! (=> (or (< i (+ %s %s)) (>= i (+ %s %s %s))) (= (select %s i) (select (select %s %s) i))) :pattern ((select %s i))))))", fits, oldOff, oldLen, oldOff, oldLen, addLen, na, a, oldBase, na))
 	// common special case: a single appended element
@@ -822,6 +955,25 @@ func (f *Frame) callModSet(c *ssa.CallCommon, mod map[string]bool) {
 	}
 	var contract *Contract
 	var callee *ssa.Function
+	if clos := closureEdges(c.Value); clos != nil && !c.IsInvoke() {
+		// a call through a phi of closures: union over the closures it may denote
+		for _, fn := range clos {
+			if fn.Blocks == nil || !inlinable(fn) || f.depth >= maxInlineDepth {
+				mod["*"] = true
+				continue
+			}
+			g := u.newFrame(fn, nil, f.depth+1)
+			g.analyseLoops()
+			all := &loopState{blocks: map[int]bool{}}
+			for _, b := range fn.Blocks {
+				all.blocks[b.Index] = true
+			}
+			for k := range g.loopModSet(all) {
+				mod[k] = true
+			}
+		}
+		return
+	}
 	if c.IsInvoke() {
 		contract = u.W.interfaceContract(c.Value.Type(), c.Method)
 	} else if fn, ok := c.Value.(*ssa.Function); ok {
@@ -868,6 +1020,16 @@ func (f *Frame) callModSet(c *ssa.CallCommon, mod map[string]bool) {
 		}
 		return
 	}
+	// a location named relative to an interior-pointer argument (&x.f) lives in the arrays of the
+	// enclosing object
+	for _, a := range c.Args {
+		switch a.(type) {
+		case *ssa.FieldAddr, *ssa.IndexAddr:
+			for _, ra := range f.rootArrays(a) {
+				mod[ra] = true
+			}
+		}
+	}
 	for _, cl := range as {
 		for _, item := range splitTop(cl.Text, ',') {
 			item = strings.TrimSpace(item)
@@ -879,7 +1041,27 @@ func (f *Frame) callModSet(c *ssa.CallCommon, mod map[string]bool) {
 			case `\all`:
 				mod["*"] = true
 			default:
-				if strings.HasPrefix(item, `\after(`) || strings.HasPrefix(item, `\elems(`) {
+				if strings.HasPrefix(item, `\elems(`) || strings.HasPrefix(item, `\mapof(`) {
+					// the heap arrays these live in depend only on the type of the expression
+					inner := strings.TrimSuffix(item[strings.Index(item, "(")+1:], ")")
+					if t := f.assignsExprType(contract, callee, c, inner); t != nil {
+						switch tt := t.Underlying().(type) {
+						case *types.Slice:
+							a, _ := u.elemArr(tt.Elem())
+							mod[a] = true
+							mod["$hv"] = true
+							continue
+						case *types.Map:
+							d, v := u.mapArrs(tt)
+							mod[d], mod[v] = true, true
+							mod["$hv"] = true
+							continue
+						}
+					}
+					mod["*"] = true
+					continue
+				}
+				if strings.HasPrefix(item, `\after(`) {
 					mod["*"] = true
 					continue
 				}
@@ -981,13 +1163,21 @@ func (f *Frame) enterLoop(b *ssa.BasicBlock, ls *loopState, preds []*ssa.BasicBl
 	}
 	// havoc
 	mod := f.loopModSet(ls)
+	if os.Getenv("GOVC_DEBUG_MOD") != "" {
+		var ks []string
+		for k := range mod {
+			ks = append(ks, k)
+		}
+		sort.Strings(ks)
+		fmt.Fprintf(os.Stderr, "modset of loop %d in %s: %v\n", ord, f.fname, ks)
+	}
 	if mod["*fresh"] && !mod["*"] {
 		// callee writes only fresh memory: arrays keep old contents at old refs
 		heap = u.newHeap(&Link{kind: "freshonly", parent: heap})
 		delete(mod, "*fresh")
-		heap = u.newHeap(&Link{kind: "loop", parent: heap, mod: mod, keep: append([]string{}, f.localRefs...)})
+		heap = u.newHeap(&Link{kind: "loop", parent: heap, mod: mod, keep: append([]string{}, f.localRefs...), frame: f.loopFrame()})
 	} else {
-		heap = u.newHeap(&Link{kind: "loop", parent: heap, mod: mod, keep: append([]string{}, f.localRefs...)})
+		heap = u.newHeap(&Link{kind: "loop", parent: heap, mod: mod, keep: append([]string{}, f.localRefs...), frame: f.loopFrame()})
 	}
 	for _, phi := range phis {
 		x := u.fresh("loop."+clip(phi.Comment, 16), u.D.SortOf(phi.Type()))
@@ -1023,6 +1213,17 @@ func (f *Frame) enterLoop(b *ssa.BasicBlock, ls *loopState, preds []*ssa.BasicBl
 		o.Cover = true
 	}
 	return ncur, heap
+}
+
+// loopFrame: the frame that bounds what a loop of the function under contract may change.
+func (f *Frame) loopFrame() *frameSpec {
+	if !f.top || f.frame == nil || f.frame.all || f.contract == nil || !f.contract.Flags["loopframe"] {
+		// (sound for every function with an assigns clause; requested per contract with the
+		// `loopframe` flag because the quantified preservation facts cost solver time where the
+		// proof does not need them)
+		return nil
+	}
+	return f.frame
 }
 
 // closeLoop: preservation obligations at a back edge.
@@ -1091,6 +1292,35 @@ func (f *Frame) checkPost(ret *ssa.Return, st *state, vs []Val) {
 			continue
 		}
 		// big finite conjunctions (forLits) are decided conjunct by conjunct: small queries
+		if os.Getenv("GOVC_SPLIT") != "" && (strings.HasPrefix(t, "(=> ") || strings.HasPrefix(t, "(and ")) {
+			// debugging aid: (=> A (and c1 .. cn)) / (and c1 .. cn) decided conjunct by conjunct
+			ante, body := "true", t
+			if strings.HasPrefix(t, "(=> ") {
+				inner := topConjuncts("(and " + t[4:len(t)-1] + ")")
+				if len(inner) == 2 {
+					ante, body = inner[0], inner[1]
+				}
+			}
+			flat := []string{body}
+			for changed := true; changed; {
+				changed = false
+				var nf []string
+				for _, p := range flat {
+					if ps := topConjuncts(p); len(ps) > 1 {
+						nf = append(nf, ps...)
+						changed = true
+					} else {
+						nf = append(nf, p)
+					}
+				}
+				flat = nf
+			}
+			for _, p := range flat {
+				u.oblige("post", f.fname, st.cur, implies(ante, p), cl.File+":"+fmt.Sprint(cl.Line), clip(p, 300))
+			}
+			u.assume(st.cur, t)
+			continue
+		}
 		if parts := topConjuncts(t); len(parts) > 8 {
 			for _, p := range parts {
 				u.oblige("post", f.fname, st.cur, p, cl.File+":"+fmt.Sprint(cl.Line), cl.Text)
@@ -1244,7 +1474,9 @@ func (f *Frame) assignsArray(contract *Contract, callee *ssa.Function, c *ssa.Ca
 	env.heap = f.entryHeap
 	env.oldHeap = f.entryHeap
 	if env.heap == nil {
-		return ""
+		// (a frame that is only analysed, e.g. a closure body: any heap will do, only types matter)
+		env.heap = u.scratchHeap()
+		env.oldHeap = env.heap
 	}
 	l, err := env.evalLoc(item)
 	if err != nil || l == nil {
@@ -1256,6 +1488,58 @@ func (f *Frame) assignsArray(contract *Contract, callee *ssa.Function, c *ssa.Ca
 	return l.Arr
 }
 
+
+// assignsExprType: static type of an expression of a callee's assigns clause.
+func (f *Frame) assignsExprType(contract *Contract, callee *ssa.Function, c *ssa.CallCommon, expr string) (t types.Type) {
+	u := f.u
+	defer func() {
+		if r := recover(); r != nil {
+			t = nil
+		}
+	}()
+	var args []Val
+	if c.IsInvoke() {
+		args = append(args, Val{T: "(mk-iface 0 0)", Typ: c.Value.Type()})
+	}
+	for _, a := range c.Args {
+		args = append(args, Val{T: u.D.Zero(a.Type()), Typ: a.Type()})
+	}
+	env := u.W.calleeEnv(u, contract, callee, c.Signature(), args)
+	env.heap = f.entryHeap
+	env.oldHeap = f.entryHeap
+	if env.heap == nil {
+		env.heap = u.scratchHeap()
+		env.oldHeap = env.heap
+	}
+	v, err := env.eval(expr)
+	if err != nil {
+		return nil
+	}
+	return v.Typ
+}
+
+// closureEdges: the functions a function-typed value can denote when it is a phi of closures
+// (and nil); nil if the value is anything else.
+func closureEdges(v ssa.Value) []*ssa.Function {
+	phi, ok := v.(*ssa.Phi)
+	if !ok {
+		return nil
+	}
+	var out []*ssa.Function
+	for _, e := range phi.Edges {
+		switch x := e.(type) {
+		case *ssa.MakeClosure:
+			out = append(out, x.Fn.(*ssa.Function))
+		case *ssa.Const:
+			if x.Value != nil {
+				return nil
+			}
+		default:
+			return nil
+		}
+	}
+	return out
+}
 
 // topConjuncts splits "(and a b c)" into its arguments.
 func topConjuncts(t string) []string {
